@@ -136,6 +136,36 @@ def I (i : Fin 5) (ci : Fin 4) : α :=
 
 end formulas
 
+/-! ### choice of the main diagonal
+
+`_get_relative_grid_addresses_from_microzone_lattice` (`np.argmin` of the squared lengths of `a+b+c, -a+b+c, a-b+c,
+a+b-c`, columns of the microzone lattice) and `c/tetrahedron_method.c: get_main_diagonal` (strict `>` keeps the first
+minimum). `TetrahedronMethod.__init__` forms the microzone lattice as `primitive_vectors / mesh`: column `j` divided by
+`mesh[j]`. -/
+
+def diagLen2 (L : Fin 3 → Fin 3 → α) (sa sb sc : Bool) : α :=
+  let sg : Bool → α → α := fun s x => if s then ((0 : Nat) : α) - x else x
+  let comp : Fin 3 → α := fun i => sg sa (L i 0) + sg sb (L i 1) + sg sc (L i 2)
+  comp 0 * comp 0 + comp 1 * comp 1 + comp 2 * comp 2
+
+/-- squared lengths of the four main diagonals -/
+def diagLens (L : Fin 3 → Fin 3 → α) : Fin 4 → α := fun d =>
+  match d with
+  | 0 => diagLen2 L false false false
+  | 1 => diagLen2 L true false false
+  | 2 => diagLen2 L false true false
+  | 3 => diagLen2 L false false true
+
+/-- index of the first shortest main diagonal -/
+def mainDiagonal (L : Fin 3 → Fin 3 → α) : Fin 4 :=
+  let l := diagLens L
+  let b1 : Fin 4 := if l 1 < l 0 then 1 else 0
+  let b2 : Fin 4 := if l 2 < l b1 then 2 else b1
+  if l 3 < l b2 then 3 else b2
+
+/-- microzone lattice of `TetrahedronMethod(primitive_vectors, mesh)` -/
+def microzone (P : Fin 3 → Fin 3 → α) (mesh : Fin 3 → α) : Fin 3 → Fin 3 → α := fun i j => P i j / mesh j
+
 /-! ### ordering: `np.argsort` of four values (stable) -/
 
 def insertIdx (v : Fin 4 → α) (k : Fin 4) : List (Fin 4) → List (Fin 4)
